@@ -86,6 +86,9 @@ func c20Make(c c20Case) (func() *c20Val, string) {
 			repr := 0
 			if len(c.B)%3 == 0 {
 				repr = 4 | 2 | 8
+				if len(c.B)%2 == 0 {
+					repr |= 16 // the relay message option as well
+				}
 			}
 			d := gen.ToLibMsgRepr(t, repr)
 			if m, ok := d.(*dhcpv6.Message); ok && len(c.B)%2 == 1 {
